@@ -159,6 +159,8 @@ pub struct FlexScen {
     ph: Vec<(u64, u64)>,
     /// generator: the current world was instantiated as a 'treasury story' (see gen_inst)
     story: std::cell::Cell<bool>,
+    /// (height, address): a member the generator just had removed; it tries Execute next, in the same block
+    just_removed: std::cell::RefCell<Option<(u64, Addr)>>,
     /// generator: the previous line was an `env` line
     last_env: bool,
     /// generator: no block change since the instantiation yet
@@ -291,6 +293,7 @@ impl FlexScen {
             seed: 0,
             ph: vec![],
             story: std::cell::Cell::new(false),
+            just_removed: std::cell::RefCell::new(None),
             last_env: false,
             fresh_inst: false,
             exec_failed: vec![],
@@ -1702,6 +1705,33 @@ impl FlexScen {
             .map(|p| p.id)
             .collect();
         let any_id = |rng: &mut Rng| 1 + rng.below(n + 1);
+        // executor = Member, a passed proposal: the group admin removes a member and that very address tries Execute
+        // in the same block (a membership check pinned to the block's snapshot would still admit it)
+        let exec_member = matches!(cfg.as_ref().and_then(|c| c.executor.clone()), Some(Executor::Member));
+        if let Some((h, x)) = self.just_removed.borrow_mut().take() {
+            if h == self.block.height && exec_member && !passed.is_empty() {
+                return format!("exec {x} execute id={}", rng.pick(&passed));
+            }
+        }
+        if exec_member && !passed.is_empty() && !admin_is_flex && rng.chance(1, 6) {
+            if let Some(a) = &admin {
+                let members: Vec<Addr> = self
+                    .pool
+                    .iter()
+                    .filter(|m| {
+                        self.qs::<MemberResponse>(&self.group, &GroupQuery::Member { addr: m.to_string(), at_height: None })
+                            .and_then(|r| r.weight)
+                            .is_some()
+                    })
+                    .cloned()
+                    .collect();
+                if members.len() >= 2 {
+                    let x = rng.pick(&members).clone();
+                    *self.just_removed.borrow_mut() = Some((self.block.height, x.clone()));
+                    return format!("group {} update_members add= remove=+{}", a, x);
+                }
+            }
+        }
         let w_group = if admin_is_flex { 2 } else { 9 };
         let w_cw20 = if cw20_dep { 6 } else { 2 };
         let w_propose = if n == 0 { 60 } else if n >= 7 { 5 } else { 20 };
